@@ -83,7 +83,11 @@ Build == /\ phase = "build" /\ Len(hist) < BuildDepth
                /\ rel' = r /\ ref' = CallRows(c, ref) /\ hist' = Append(hist, c)
          /\ UNCHANGED <<src, l1, phase, pay, evals, evhist, lastErr>>
 
-StartEval == /\ phase = "build" /\ Len(hist) >= 1 /\ MatNodes(rel) # {}
+\* histories are explored for trees on which processing has something to do:
+\* a materialization, or a transfer above a chain (whose pruning rebuilds the tree)
+StartEval == /\ phase = "build" /\ Len(hist) >= 1
+             /\ \/ MatNodes(rel) # {}
+                \/ \E n \in Nodes(rel) : n.k = "xfer" /\ \E m \in Nodes(n) : m.k = "bin"
              /\ phase' = "eval"
              /\ UNCHANGED <<src, l1, hist, rel, ref, pay, evals, evhist, lastErr>>
 
